@@ -514,7 +514,11 @@ fn check_one(
                 ScalarStyle::Literal | ScalarStyle::Folded => bump(counts, "unspecified/span-end-of-block-scalar"),
                 _ => {
                     if let Some(Some(tok)) = tokens.and_then(|t| t.get(xn.pre)) {
-                        if tok.contains('\n') || tok.contains('\r') {
+                        let multi_line = tok.contains('\n') || tok.contains('\r');
+                        if multi_line && *style != ScalarStyle::Plain {
+                            bump(counts, "multi_line_quoted_scalars_checked");
+                        }
+                        if multi_line && *style == ScalarStyle::Plain {
                             bump(counts, "unspecified/span-end-of-multi-line-scalar");
                         } else if let (Some(bo), Some(bl)) = (st.defined.span().byte_offset(), st.defined.span().byte_len()) {
                             let (bo, bl) = (bo as usize, bl as usize);
@@ -941,7 +945,12 @@ fn build_doc(
             return None;
         }
     }
-    let toks = tokens_by_pre(&r, pre.len());
+    let mut toks = tokens_by_pre(&r, pre.len());
+    for (node, t) in &d.token_overrides {
+        if let Some(slot) = toks.get_mut(*node) {
+            *slot = Some(t.clone());
+        }
+    }
     let text = if d.bom { format!("\u{FEFF}{}", d.text) } else { d.text };
     Some((text, toks, d.what))
 }
@@ -951,6 +960,9 @@ const LEAVES_C16: &[Leaf] = &[
     Leaf { text: "7", style: Style::Plain, unique: false },
     Leaf { text: "ü ✓", style: Style::Double, unique: false },
     Leaf { text: "q 😀", style: Style::Single, unique: false },
+    Leaf { text: "a\\'b\\", style: Style::Single, unique: false },
+    Leaf { text: "'", style: Style::Single, unique: false },
+    Leaf { text: "a\\\"", style: Style::Double, unique: false },
 ];
 
 /// One anchor + one alias (optionally as a merge) on a base tree: every placement.
@@ -1193,7 +1205,7 @@ fn main() {
 
     let scope = format!(
         "(a) all strings of <= {max_len} tokens over the 28-token C01 alphabet + CRLF + CR ({total_short} strings) x 4 targets, every error / Spanned location checked for consistency; \
-         (b) all base trees with <= {max_nodes} nodes over 4 scalar leaves (multi-byte plain, integer, multi-byte double- and single-quoted) + empty seq/map, undecorated or with every placement of one anchor + one later alias (and its merge-key variant), x {{block, flow}} x {{LF, CRLF, CR}} x {{no prefix, multi-byte comment line, BOM}}, every delivered node x 4 typed demands"
+         (b) all base trees with <= {max_nodes} nodes over 7 scalar leaves (multi-byte plain, integer, multi-byte double- and single-quoted, single-quoted with backslashes and an escaped quote, the single-quoted quote, double-quoted ending in an escaped backslash + quote) + empty seq/map, undecorated or with every placement of one anchor + one later alias (and its merge-key variant), x {{block, flow}} x {{LF, CRLF, CR}} x {{no prefix, multi-byte comment line, BOM}}, every delivered node x 4 typed demands"
     );
     let fin = Finish::new(
         "a node counts when all its checks ran and either a multi-byte character or a non-LF break precedes it in the document, or it is reached through an alias/merge; typed-error cases count under the same condition; short strings count when some reported location lies after a multi-byte character or a CR; distinct by hash(text, delivered path[, demanded type])",
